@@ -66,3 +66,40 @@ Lemma ex_nonvacuous :
   In (ExRx (ExConR 7001 1) true, [ExTx (ExRst 7001)]) t /\
   accepts_c07 t = true.
 Proof. vm_compute. repeat split; auto 10. Qed.
+
+(* F5: the hypothesis "message ids do not wrap within the run" of the liveness theorem is
+   necessary.  One exchange answered piggybacked (last_ack_mid := 101), 65535 exchanges answered
+   by an empty ACK and a separate Confirmable response (they do not touch last_ack_mid), then the
+   request that carries mid 101 again: its piggybacked response is discarded as a duplicate, the
+   request has left the send queue - neither handler nor NACK.  Stated on the client alone with
+   an honest peer that echoes mid and token of every request. *)
+Fixpoint ex_wrap_sep (n : nat) (mid tok smid : Z) : list ex_cin :=
+  match n with
+  | O => []
+  | S k =>
+      let m := (mid + 1) mod 65536 in
+      [ExSend 1; ExRx (ExAckE m) true; ExRx (ExConR (smid mod 65536) (tok + 1)) true]
+      ++ ex_wrap_sep k m (tok + 2) (smid + 1)
+  end.
+
+Definition ex_wrap_inputs (n : nat) : list ex_cin :=
+  [ExSend 0; ExRx (ExAckR 101 1) true] ++ ex_wrap_sep n 101 1 7001 ++
+  [ExSend 0; ExRx (ExAckR ((101 + Z.of_nat n + 1) mod 65536) (2 + 2 * Z.of_nat n)) true].
+
+(* the last two observed steps and the send queue afterwards *)
+Definition ex_wrap_summary (n : nat) : ex_obs * ex_obs * option ex_qent :=
+  let r := ex_cli_run 4 (ex_cli_init 100 0) (ex_wrap_inputs n) in
+  let t := snd r in
+  (nth (length t - 2) t (ExTimer, []), nth (length t - 1) t (ExTimer, []), ex_c_q (fst r)).
+
+Lemma ex_wrap_refuted :
+  ex_wrap_summary (Z.to_nat 65535) =
+  ((ExSend 0, [ExTx (ExReq 101 131072 0)]), (ExRx (ExAckR 101 131072) true, []), None).
+Proof. vm_compute. reflexivity. Qed.
+
+(* one exchange fewer and the same response is delivered *)
+Lemma ex_wrap_not_yet :
+  ex_wrap_summary (Z.to_nat 65534) =
+  ((ExSend 0, [ExTx (ExReq 100 131070 0)]),
+   (ExRx (ExAckR 100 131070) true, [ExResp 2 100 131070 131070]), None).
+Proof. vm_compute. reflexivity. Qed.
